@@ -203,7 +203,11 @@ _g_counter = [0]
 def make_filtered(cx, src: Arr, mask: Arr) -> Filtered:
     """A[mask]: ghost increasing enumeration g of the true positions (assumed numpy contract)."""
     cache = cx.ghost.setdefault("mask_enum", {})
-    key = id(mask), id(mask.fn)
+    _probe = z3.Int("probe!mask")
+    _saved = {k: dict(v) for k, v in V.APPS.items()}
+    key = (V.to_z3(mask.fn(_probe)).get_id(), V.to_z3(mask.shape[0]).get_id())
+    V.APPS.clear()
+    V.APPS.update(_saved)
     if key not in cache:
         _g_counter[0] += 1
         k = _g_counter[0]
@@ -993,7 +997,61 @@ def np_dtype(interp, name):
     return DType(dtype_kind(name), "M8[s]" if str(name).startswith(("M8", "datetime64")) else str(name))
 
 
+class Broadcast:
+    pass
+
+
+def np_broadcast(interp, *args):
+    """np.broadcast of scalars and 1-D arrays: .ndim, .size (ValueError when lengths differ)."""
+    from .interp import Obj
+
+    cx = interp.cx
+    length = None
+    ndim = 0
+    for x in args:
+        if isinstance(x, Arr):
+            if x.ndim > 1:
+                return Obj(None, ndim=x.ndim, size=None)
+            if x.ndim == 1:
+                ndim = 1
+                if length is None or dim_one(length):
+                    length = x.shape[0]
+                elif not dim_one(x.shape[0]):
+                    c = V.s_cmp("==", x.shape[0], length)
+                    if c is False or (c is not True and not cx.fork(c)):
+                        raise PyRaise("ValueError", ("shape mismatch: objects cannot be broadcast to a single shape",))
+        elif isinstance(x, (list, tuple)):
+            raise Unsupported("np.broadcast of a list")
+    return Obj(None, ndim=ndim, size=length if ndim == 1 else 1)
+
+
+def dim_one(d):
+    return isinstance(d, int) and d == 1
+
+
+def np_broadcast_to(interp, v, shape=None):
+    shape = _shape_arg(shape)
+    if len(shape) != 1:
+        raise Unsupported("broadcast_to a non 1-D shape")
+    if isinstance(v, Arr):
+        if v.ndim == 0:
+            val = v.at()
+            return Arr(shape, lambda i: val, v.kind)
+        c = V.s_cmp("==", v.shape[0], shape[0])
+        if c is True:
+            return Arr(shape, v.fn, v.kind)
+        if dim_one(v.shape[0]):
+            fn = v.fn
+            return Arr(shape, lambda i: fn(0), v.kind)
+        if c is False or not interp.cx.fork(c):
+            raise PyRaise("ValueError", ("cannot broadcast",))
+        return Arr(shape, v.fn, v.kind)
+    return Arr(shape, lambda i: v, V.kind_of(v) if V.kind_of(v) != "obj" else "real")
+
+
 NP_FUNCS = {
+    "numpy.broadcast": np_broadcast,
+    "numpy.broadcast_to": np_broadcast_to,
     "numpy.zeros_like": np_zeros_like,
     "numpy.zeros": np_full_const({"real": Fraction(0), "int": 0, "bool": False}),
     "numpy.ones": np_full_const({"real": Fraction(1), "int": 1, "bool": True}),
